@@ -75,7 +75,7 @@ SPEC = dict(
         'op_start': dict(file=H, sig=r'friend void tag_invoke\(tag_t<start>, type& op\) noexcept', within=OPC, ctx=op_ctx),
         'op_destroy': dict(file=H, sig=r'static void destroy\(Alloc alloc, void\* p\) noexcept', within=OPC, ctx=op_ctx),
         'fn_call': dict(file=H, sig=r'operator\(\)\(Sender&& sender, Scope& scope, const Alloc& alloc = \{\}\) const', within=FN, ctx=fn_ctx,
-                        must_contain=[r'traits::allocate', r'scope_guard', r'g\.release\(\)']),
+                        must_contain=[r'traits::allocate', r'scope_guard']),
     },
     closed_world=[dict(file=H, members=['deleter_'], within=RCV, allow=[r'void \(\*deleter_\)\(Alloc, void\*\) noexcept;'])],
     units=[
